@@ -136,7 +136,10 @@ func genCollFamily(a progArgs, emit func(func() *progCase)) {
 					if risky := extendsNonFinal(b, p) && act.name != "read" && act.name != "unset"; risky != a.Risky {
 						continue
 					}
-					if a.Risky && !((c.name == "oosvar" || c.name == "local") && act.name == "assign0") {
+					if a.Risky && a.Level == 0 && !riskyQuick(b, p) {
+						continue
+					}
+					if a.Risky && !((c.name == "oosvar" || (c.name == "local" && a.Level > 0)) && act.name == "assign0") {
 						// growing an array through a non-final index currently overwrites a process-wide
 						// constant and mostly ends in a stack overflow that kills the worker: two
 						// containers and one right-hand side keep the run time bounded
@@ -203,6 +206,16 @@ func genCollFamily(a progArgs, emit func(func() *progCase)) {
 			}
 		}
 	}
+}
+
+// the quick tier's representatives: one and two past the end, next index 1, 2, "k"
+func riskyQuick(b collBase, p []expr) bool {
+	i := p[0].(eLit).v.i
+	if i != int64(b.n)+1 && i != int64(b.n)+2 {
+		return false
+	}
+	j, ok := p[1].(eLit)
+	return ok && ((j.v.k == kInt && (j.v.i == 1 || j.v.i == 2)) || (j.v.k == kStr && j.v.s == "k"))
 }
 
 func extendsNonFinal(b collBase, p []expr) bool {
